@@ -12,6 +12,10 @@ UNIVERSES = {
     # C03 needs every pair (also the unconvertible ones); "paired" adds deep related pairs
     ("C03", "quick"): [("LeavesQuick", 1, 1, False, "all"), ("AllBasics", 0, 1, False, "all"), ("LeavesPair", 2, 1, False, "paired")],
     ("C03", "thorough"): [("LeavesFull", 1, 1, False, "all"), ("LeavesDeep", 2, 1, False, "all"), ("LeavesVal", 3, 1, False, "paired")],
+    ("C11", "quick"): [("LeavesPtr", 1, 1, False, "all"), ("LeavesMini", 3, 1, True, "paired")],
+    ("C11", "thorough"): [("LeavesPtr", 1, 2, False, "all"), ("LeavesPtr", 3, 1, True, "paired")],
+    ("C18", "quick"): [("LeavesOdd", 1, 1, True, "all"), ("LeavesPair", 2, 1, True, "paired")],
+    ("C18", "thorough"): [("LeavesFull", 1, 1, True, "all"), ("LeavesVal", 3, 1, True, "paired")],
     ("C13", "quick"): [("LeavesOdd", 1, 1, False, "all")],
     ("C13", "thorough"): [("LeavesFull", 1, 1, False, "all")],
     # value-level properties only need the pairs that generate; they can afford deeper types and wider values
